@@ -204,8 +204,10 @@ Section Spec.
     | _ => true
     end.
 
-  (* S2  no token request while a usable covering token is cached; a second attempt only in
-     answer to a challenge *)
+  (* S2  no token request while a usable covering token is cached, and no extra round trip
+     either: the first attempt then carries a bearer token (S1 says which ones it may carry),
+     it does not go out bare to fetch a challenge; a second attempt only in answer to a
+     challenge *)
   Definition evS2 (e : event) (h : hist) : bool :=
     match e with
     | ESend id m _ =>
@@ -213,7 +215,9 @@ Section Spec.
         | EStart _ q :: older =>
             if is_tok_msg m
             then negb (cached_valid (q_host q) (q_required q) (e_clock E (before_phase id h)) None older)
-            else true
+            else if cached_valid (q_host q) (q_required q) (e_clock E (before_phase id h)) None older
+                 then match m with MReg _ (ABearer _) => true | _ => false end
+                 else true
         | EResume _ :: older =>
             if is_tok_msg m then true
             else match last_reg id older with
@@ -402,3 +406,56 @@ Section Spec.
     | _ => true
     end.
 End Spec.
+
+(* ---------- C11, request bodies one by one ---------- *)
+
+(* [count_ev p h]: how many events of [h] satisfy [p] *)
+Definition count_ev (p : event -> bool) (h : hist) : nat := List.length (filter p h).
+
+(* req.GetBody() was called by call [id] *)
+Definition is_getbody (id : nat) (e : event) : bool :=
+  match e with EGetBody i => Nat.eqb i id | _ => false end.
+
+(* call [id] got rid of a request body: it handed it to the underlying transport with an attempt
+   (which closes it), or the transport closed it itself *)
+Definition is_disposal (id : nat) (e : event) : bool :=
+  match e with
+  | ESend i (MReg _ _) _ => Nat.eqb i id
+  | ESelfClose i => Nat.eqb i id
+  | _ => false
+  end.
+
+(* the request bodies call [id] has had in its hands: the one it was given, and one for every
+   call of a GetBody that works (a failing GetBody returns none) *)
+Definition bodies_given (id : nat) (q : request) (h : hist) : nat :=
+  match q_body q with
+  | BNone => 0
+  | BPlain | BGetFail => 1
+  | BGet => S (count_ev (is_getbody id) h)
+  end.
+
+(* P5  when a call returns, every request body it has had in its hands - the original AND every
+   copy obtained from GetBody - has been handed over or closed: there are at least as many
+   hand-overs and closes as bodies *)
+Definition evP5 (e : event) (h : hist) : bool :=
+  match e with
+  | EReturn id _ =>
+      match req_of id h with
+      | Some q => (bodies_given id q h <=? count_ev (is_disposal id) h)%nat
+      | None => false
+      end
+  | _ => true
+  end.
+
+(* ---------- the challenge parser: parameter names are case-insensitive (RFC 7235, 2.1) ---------- *)
+
+(* no upper-case ASCII letter: the transport looks parameters up under their lower-case names
+   (realm, service, scope) and compares the scheme with basic / bearer, so the parser has to hand
+   out names and scheme in lower case whatever the header's spelling *)
+Definition no_upper (a : bytes) : bool := forallb (fun c => negb ((65 <=? c)%N && (c <=? 90)%N)) a.
+
+Definition parsed_lower (o : option (bytes * list (bytes * bytes))) : bool :=
+  match o with
+  | Some (sch, ps) => no_upper sch && forallb (fun kv => no_upper (fst kv)) ps
+  | None => true
+  end.
